@@ -1056,7 +1056,13 @@ func ruleSIB6(w *World) []Ob {
 	for _, wk := range workers {
 		rt := recvTypeName(wk)
 		// embedded simple type
+		if wk.Signature.Recv() == nil {
+			continue // a worker that is a function literal or a plain function: no stage type to compare
+		}
 		recvNamed := namedOf(wk.Signature.Recv().Type())
+		if recvNamed == nil {
+			continue
+		}
 		st, ok := recvNamed.Underlying().(*types.Struct)
 		if !ok {
 			continue
@@ -1160,6 +1166,21 @@ func ruleSIB6(w *World) []Ob {
 						set["ext:"+g.String()] = true
 					}
 				})
+				// a method of the simple type handed on as a method value (slices.ContainsFunc(roots, dm.isExist)) is a
+				// call of it as well
+				for _, e := range succsOf(p, f) {
+					g := e.to
+					if g.Synthetic != "" {
+						allInstrs(g, func(in2 ssa.Instruction) {
+							if c2, ok := in2.(*ssa.Call); ok && c2.Common().StaticCallee() != nil {
+								g = c2.Common().StaticCallee()
+							}
+						})
+					}
+					if g != f && recvTypeName(g) == simple {
+						leaf = false
+					}
+				}
 				if leaf {
 					set[fname(f)] = true
 				}
@@ -1171,7 +1192,7 @@ func ruleSIB6(w *World) []Ob {
 		} else if ba, bb := bottom(wk), bottom(sm); len(a) > 0 && ba == bb && ba != "" {
 			l.ok(p.FuncID(wk), construct, p.Pos(wk.Pos()), "the worker calls {"+strings.Join(a, ", ")+"}, simple mode {"+strings.Join(b, ", ")+"}; both bottom out in the same leaf methods and external calls {"+ba+"}", true, "reuse")
 		} else {
-			l.bad(p.FuncID(wk), construct, p.Pos(wk.Pos()), "the massive-mode worker handles a root with {"+strings.Join(a, ", ")+"} but simple mode uses {"+strings.Join(b, ", ")+"}: the two modes can give different results for the same root", "reuse")
+			l.bad(p.FuncID(wk), construct, p.Pos(wk.Pos()), "the massive-mode worker handles a root with {"+strings.Join(a, ", ")+"} but simple mode uses {"+strings.Join(b, ", ")+"}: the two modes can give different results for the same root (they bottom out in {"+bottom(wk)+"} and {"+bottom(sm)+"})", "reuse")
 		}
 	}
 	if n == 0 {
